@@ -235,6 +235,9 @@ func cmdCheck(id string, args []string) int {
 	replayed := 0
 	spurious := []string{}
 	cexDir := filepath.Join(verifRoot(), "cex", id)
+	if d := os.Getenv("GOSYM_CEX_DIR"); d != "" { // mutation tooling: keep /verif/cex untouched
+		cexDir = filepath.Join(d, id)
+	}
 	os.RemoveAll(cexDir)
 	var rp *replayer
 	defer func() {
